@@ -61,7 +61,7 @@ func valueKinds() []valueKind {
 func main() {
 	c := vh.New("C07")
 	logger.Disable()
-	c.Rule(fmt.Sprintf("%d circuit-struct shapes enumerated by tools/shapegen.py (all 1-field shapes over {Variable, [2]Variable, []Variable len 2/0, nested struct by value / pointer / embedded with 5 inner bodies up to depth 3} x tag set {none, name, public, secret, inherit, -, name+public}; all 2-field shapes over a reduced field set; 3-field shapes over 6 fields) + a custom type with init hook. Per shape: the witness vector must list the public leaves in declaration order then the secret ones (expected order computed by the generator from the documented rules), public-only witness = Public() = prefix, binary and JSON round trips, both builders solve with leaf_i asserted equal to its constant inside Define, and fail when two assigned values are swapped; shapes the rules make conflicting must be rejected. Value types: every accepted Go type on a 3-leaf shape x 4 fields. distinct = (shape class, verdict).", len(c07shapes.Shapes)))
+	c.Rule(fmt.Sprintf("%d circuit-struct shapes enumerated by tools/shapegen.py (all 1-field shapes over {Variable, [2]Variable, []Variable len 2/0, nested struct by value / pointer / embedded / as element of [2], [3] arrays and len-2 slices, with 8 inner bodies up to depth 3 incl. bodies mixing inheriting and explicitly tagged inner arrays} x tag set {none, name, public, secret, inherit, -, name+public}; all 2-field shapes over a reduced field set; 3-field shapes over 6 fields) + a custom type with init hook. Per shape: the witness vector must list the public leaves in declaration order then the secret ones (expected order computed by the generator from the documented rules), public-only witness = Public() = prefix, binary and JSON round trips, both builders solve with leaf_i asserted equal to its constant inside Define, and fail when two assigned values are swapped; shapes the rules make conflicting must be rejected. Value types: every accepted Go type on a 3-leaf shape x 4 fields. distinct = (shape class, verdict).", len(c07shapes.Shapes)))
 	c.Assume("expected order derived from the doc comments of frontend/schema/tags.go")
 	fields := map[string]*big.Int{"tiny": circ.P47, "bn254": ecc.BN254.ScalarField(), "bls12_381": ecc.BLS12_381.ScalarField(), "bw6_761": ecc.BW6_761.ScalarField()}
 	shapes := c07shapes.Shapes
